@@ -569,6 +569,12 @@ fn spawn_async_ao_list_in_task'''),
         ('limit-check-dropped', 'brush-core/src/arithmetic.rs', "    if new_depth > MAX_VARIABLE_DEREF_DEPTH {\n        return Err(EvalError::RecursionLimitExceeded);\n    }\n", ""),
         ('limit-check-off-by-far', 'brush-core/src/arithmetic.rs', "    if new_depth > MAX_VARIABLE_DEREF_DEPTH {", "    if new_depth > MAX_VARIABLE_DEREF_DEPTH * 1024 {"),
     ],
+    'U24': [
+        ('cursor-not-backed-up-to-a-boundary', 'brush-core/src/completion.rs', "        while !input.is_char_boundary(position) {\n            position -= 1;\n        }\n", ""),
+        ('cursor-backs-up-one-byte-only', 'brush-core/src/completion.rs', "        while !input.is_char_boundary(position) {", "        if !input.is_char_boundary(position) {"),
+        ('prefix-cut-from-the-line-start', 'brush-core/src/completion.rs', "let offset_into_token = cursor - insertion_index;", "let offset_into_token = cursor;"),
+        ('token-range-includes-one-past-the-end', 'brush-core/src/completion.rs', "else if cursor >= token.start && cursor <= token.end() {", "else if cursor >= token.start && cursor <= token.end() + 1 {"),
+    ],
     'U16': [
         ('tilde-not-flagged-at-start', 'brush-core/src/escape.rs', "    matches!(c, '#' | '~')", "    matches!(c, '#')"),
         ('bang-not-flagged', 'brush-core/src/escape.rs', "            | '!'\n", ""),
